@@ -853,14 +853,12 @@ def dig_string(obj, where, depth):
 def outer_text(xml, where, depth):
     """the text the encoder wrote for the OUTERMOST escaped string: for
     depth 0 the string itself, else the embedded object's XML text"""
-    if depth > 0 or where in ("value", "char16"):
-        return _between(xml, "<VALUE", "</VALUE>")
-    if where == "qualvalue":
-        return _between(xml, "<VALUE", "</VALUE>")
+    if depth > 0 or where in ("value", "char16", "qualvalue"):
+        return _between(xml, "<VALUE>", "</VALUE>")
     if where == "keyvalue":
-        return _between(xml, "<KEYVALUE", "</KEYVALUE>")
+        return _between(xml, "<KEYVALUE ", "</KEYVALUE>")
     if where == "host":
-        return _between(xml, "<HOST", "</HOST>")
+        return _between(xml, "<HOST>", "</HOST>")
     return None
 
 
@@ -944,6 +942,9 @@ _VC_OF_TOKEN = {"i:min": "min", "i:max": "max", "i:int": "int", "b:T": "T",
                 "r:nan": "nan", "r:inf": "inf"}
 
 
+_PATH_KEY_NAMES = {"a": "k", "b": "l", "c": "y", "d": "z"}
+
+
 def from_builder(recs, rng):
     """element records of the TLC builder machine -> abstract elements.
     Value classes TLC left open (which boundary, which datetime form) are
@@ -958,6 +959,11 @@ def from_builder(recs, rng):
             parent = path[:path.rstrip("/").rfind("/") + 1]
             par = idx[parent] + 1
         e = E(r["et"], par, r["name"], ty=r["type"])
+        if r["et"] == "kb" and path.startswith("/path/kb:"):
+            # keys of the instance's own path: names disjoint from the
+            # property names (CIMInstance() copies a same-named property
+            # value into the path, which is not what the builder describes)
+            e["nm"] = _PATH_KEY_NAMES.get(r["name"], r["name"])
         if r["et"] in ("prop", "qual", "qdecl", "pval", "kb"):
             val = list(r["val"])
             if r["isnull"]:
@@ -1099,7 +1105,7 @@ class TreeGen:
             i = self.valued("qual", par, nm, 9)
             self.attrs(i)
 
-    def path(self, par, depth, allow_class=False):
+    def path(self, par, depth, allow_class=False, own=False):
         rng = self.rng
         if allow_class and rng.random() < 0.15:
             e = E("cpath", par, rng.choice("abc"))
@@ -1109,7 +1115,8 @@ class TreeGen:
             me = self.add(e)
             kts = [t for t in ALL_TYPES + ["numeric"]
                    if not (self.clean and t == "char16")]
-            for nm in rng.sample("abcdk", rng.randint(1, 3)):
+            pool = "klyz" if own else "abcdk"
+            for nm in rng.sample(pool, rng.randint(1, 3)):
                 typ = rng.choice(kts)
                 if typ == "reference" and depth >= self.maxdepth:
                     typ = "string"
@@ -1135,7 +1142,7 @@ class TreeGen:
             if rng.random() < 0.3:
                 self.quals(i, rng.randint(1, 2))
         if par == 0 and rng.random() < 0.7:
-            self.path(me, 1)
+            self.path(me, 1, own=True)
         return me
 
     def klass(self, par, depth):
